@@ -4,6 +4,7 @@ import (
 	"bufio"
 	"context"
 	"encoding/base64"
+	"errors"
 	"fmt"
 	"net"
 	"net/http"
@@ -158,11 +159,49 @@ func orDash(s string) string {
 	return s
 }
 
+// failHijackRW: a ResponseWriter whose Hijack fails (the server already replied, HTTP/2, …).
+type failHijackRW struct{ *httptest.ResponseRecorder }
+
+func (failHijackRW) Hijack() (net.Conn, *bufio.ReadWriter, error) {
+	return nil, nil, errors.New("hijack not possible")
+}
+
+// c11Unhijackable: a perfectly valid upgrade request on a connection that cannot be taken over must end
+// with an HTTP error status and an error, never with a connection.
+func c11Unhijackable(rep *Report) {
+	valid := func() *http.Request {
+		r, _ := http.NewRequest("GET", "http://example.com/ws", nil)
+		r.Header.Set("Connection", "Upgrade")
+		r.Header.Set("Upgrade", "websocket")
+		r.Header.Set("Sec-WebSocket-Version", "13")
+		r.Header.Set("Sec-WebSocket-Key", testKey)
+		return r
+	}
+	for _, k := range []string{"no-hijacker", "hijack-fails"} {
+		rec := httptest.NewRecorder()
+		var w http.ResponseWriter = rec
+		if k == "hijack-fails" {
+			w = failHijackRW{rec}
+		}
+		conn, err := websocket.Accept(w, valid(), nil)
+		rep.eval("unhijackable/" + k)
+		if conn != nil {
+			conn.CloseNow()
+		}
+		// (when Hijack itself fails the 101 has already been written - the status line must precede hijacking -
+		// so only "an error and no connection" is demanded there; the property speaks about invalid requests)
+		if err == nil || conn != nil || (k == "no-hijacker" && rec.Code < 400) {
+			rep.violate(Violation{Kind: "property", Shape: "upgrade-without-takeover:" + k, What: fmt.Sprintf("valid request, ResponseWriter %s: Accept err=%v conn=%v status=%d (an error, no connection and - if nothing was written yet - an HTTP error status are required)", k, err, conn != nil, rec.Code), Replay: map[string]string{"writer": k}})
+		}
+	}
+}
+
 func runC11(ctx *runCtx) {
 	rep := ctx.rep
 	rep.Rule = "cross product of a request grammar: method x HTTP version x Connection and Upgrade value lists (case, several tokens, several header lines, near misses) x version values x key variants (valid, padded with spaces, missing, duplicated, 15/17 bytes, non-base64) x offered x supported subprotocol lists; " +
-		"each through verifyClientRequest and through Accept with a recording hijackable ResponseWriter (status, headers, Sec-WebSocket-Accept vs crypto/sha1, subprotocol, hijack iff upgrade), pipelined frames, and a real net/http server on loopback; Lean model compared on every case (incl. SHA-1/base64). distinct = case tuple"
+		"each through verifyClientRequest and through Accept with a recording hijackable ResponseWriter (status, headers, Sec-WebSocket-Accept vs crypto/sha1, subprotocol, hijack iff upgrade), pipelined frames, a valid request on a ResponseWriter without Hijacker / with a failing Hijack (error status, no connection), and a real net/http server on loopback; Lean model compared on every case (incl. SHA-1/base64). distinct = case tuple"
 	rng := newRng(ctx.seed, "c11")
+	c11Unhijackable(rep)
 	methods := []string{"GET", "GET", "POST", "get", "HEAD"}
 	versions := [][2]int{{1, 1}, {1, 1}, {1, 0}, {2, 0}, {0, 9}}
 	conns := [][]string{{"Upgrade"}, {"upgrade"}, {"keep-alive, Upgrade"}, {"keep-alive", "Upgrade"}, {" UPGRADE "}, {"keep-alive"}, {"Upgradex"}, {""}, nil, {"keep-alive,upgrade ,x"}, {"up grade"}}
